@@ -461,7 +461,11 @@ pub fn random_plan(reg: &[TypeEntry], seed: u64, run: u64) -> Plan {
                 1 | 2 => w - 1 - rng.below(w.min(3)),
                 _ => rng.below(w),
             } as u32;
-            let kind = if rng.chance(1, 3) { WKind::Permanent } else { WKind::Transient };
+            let kind = match rng.below(12) {
+                0 => WKind::Panic,
+                1..=4 => WKind::Permanent,
+                _ => WKind::Transient,
+            };
             plan.wfaults.push(WFault { step, kind });
         }
         plan.retry = rng.chance(1, 4);
@@ -481,7 +485,11 @@ pub fn random_plan(reg: &[TypeEntry], seed: u64, run: u64) -> Plan {
                 }
             }
             let r = probe.rsteps.max(1) as u64;
-            plan.rfaults.push(RFault::Err { step: rng.below(r) as u32, permanent: rng.chance(1, 3) });
+            if rng.chance(1, 12) {
+                plan.rfaults.push(RFault::Panic { step: rng.below(r) as u32 });
+            } else {
+                plan.rfaults.push(RFault::Err { step: rng.below(r) as u32, permanent: rng.chance(1, 3) });
+            }
         }
         plan.retry = rng.chance(1, 4);
     }
